@@ -52,17 +52,17 @@ fn c02_post_split1<S: Data<Elem = u8>, U: Data<Elem = u8>>(
 fn c02_post_split2<S: Data<Elem = u8>, U: Data<Elem = u8>>(
     d1: &DatasetBase<ArrayBase<S, Ix2>, ArrayBase<U, Ix2>>,
     d2: &DatasetBase<ArrayBase<S, Ix2>, ArrayBase<U, Ix2>>,
-    n: usize, p: usize, m: usize, n1: usize,
+    n: usize, p: usize, m: usize, n1: usize, weighted: bool,
 ) {
     assert!(n1 <= n);
     assert!(d1.records.dim() == (n1, p) && d2.records.dim() == (n - n1, p));
     assert!(d1.targets.dim() == (n1, m) && d2.targets.dim() == (n - n1, m));
-    assert!(d1.weights.len() == n1 && d2.weights.len() == n - n1);
+    if weighted { assert!(d1.weights.len() == n1 && d2.weights.len() == n - n1); } else { assert!(d1.weights.len() == 0 && d2.weights.len() == 0); }
     for i in 0..n {
         let (d, j) = if i < n1 { (d1, i) } else { (d2, i - n1) };
         for q in 0..p { assert!(d.records[(j, q)] == (10 * i + q) as u8); }
         for c in 0..m { assert!(d.targets[(j, c)] == (100 + i + 50 * c) as u8); }
-        assert!(d.weights[j] == 0.5 + i as f32);
+        if weighted { assert!(d.weights[j] == 0.5 + i as f32); }
     }
     for d in [d1, d2] {
         assert!(d.feature_names().len() == p && d.target_names().len() == m);
@@ -77,18 +77,12 @@ fn c02_ds1(n: usize, p: usize, weighted: bool, named: bool) -> Dataset<u8, u8, I
     if named { ds = ds.with_feature_names(C02_FNAMES[..p].to_vec()).with_target_names(C02_TNAMES[..1].to_vec()); }
     ds
 }
-fn c02_ds2(n: usize, p: usize, m: usize) -> Dataset<u8, u8, Ix2> {
-    Dataset::new(c02_records(n, p), c02_targets2(n, m))
-        .with_weights(c02_weights(n))
+fn c02_ds2(n: usize, p: usize, m: usize, weighted: bool) -> Dataset<u8, u8, Ix2> {
+    let mut ds = Dataset::new(c02_records(n, p), c02_targets2(n, m))
         .with_feature_names(C02_FNAMES[..p].to_vec())
-        .with_target_names(C02_TNAMES[..m].to_vec())
-}
-/// exact ceil for |x| < 2^31 written with casts only, which CBMC constant-folds (its `ceilf` is not folded, so the
-/// split index stays symbolic for the solver even when the ratio is a literal)
-fn c02_ceil_by_cast(x: f32) -> f32 {
-    assert!(x > -2.0e9 && x < 2.0e9);
-    let t = x as i32 as f32;
-    if t < x { t + 1.0 } else { t }
+        .with_target_names(C02_TNAMES[..m].to_vec());
+    if weighted { ds = ds.with_weights(c02_weights(n)); }
+    ds
 }
 fn c02_any_ratio() -> f32 {
     let ratio: f32 = kani::any();
@@ -97,10 +91,13 @@ fn c02_any_ratio() -> f32 {
 }
 
 // ------------------------------------------------------------------ owned form
+// Cost note (measured): the split index is symbolic for CBMC even for a literal ratio (`ceilf` is not constant-folded),
+// so concrete ratios are no cheaper than a symbolic one; every unit therefore uses a fully symbolic ratio, which
+// includes both boundaries 0.0 and 1.0 and every rounding case of the single-precision product.
 
-// @unit class=bounded tier=quick mem=light bound="n=2,p=2,single target,weights+names,ratio symbolic f32 in [0,1]" timeout=600 fns=linfa::dataset::Dataset::split_with_ratio
+// @unit class=bounded tier=quick mem=heavy bound="n=2,p=2,single target,weights+names,ratio symbolic f32 in [0,1]" timeout=900 fns=linfa::dataset::Dataset::split_with_ratio
 #[kani::proof]
-#[kani::unwind(5)]
+#[kani::unwind(4)]
 #[kani::stub(alloc::fmt::format, fmt_stub)]
 fn c02_split_owned_n2() {
     let ratio = c02_any_ratio();
@@ -112,7 +109,7 @@ fn c02_split_owned_n2() {
     kani::cover!(n1 == 2 && ratio < 1.0);
 }
 
-// @unit class=bounded tier=thorough mem=heavy bound="n=3,p=2,single target,weights+names,ratio symbolic f32 in [0,1]" timeout=1200 fns=linfa::dataset::Dataset::split_with_ratio
+// @unit class=bounded tier=thorough mem=heavy bound="n=3,p=2,single target,weights+names,ratio symbolic f32 in [0,1]" timeout=1800 fns=linfa::dataset::Dataset::split_with_ratio
 #[kani::proof]
 #[kani::unwind(5)]
 #[kani::stub(alloc::fmt::format, fmt_stub)]
@@ -127,26 +124,8 @@ fn c02_split_owned_n3() {
     kani::cover!(n1 == 3 && ratio < 1.0);
 }
 
-// concrete ratios including both boundaries and values around the thirds, n = 3
-// @unit class=bounded tier=quick mem=light bound="n=3,p=2,single target,weights+names,ratio in {0,1e-9,1/3,0.34,0.5,2/3,0.67,1}" timeout=600 fns=linfa::dataset::Dataset::split_with_ratio
-#[kani::proof]
-#[kani::unwind(9)]
-#[kani::stub(alloc::fmt::format, fmt_stub)]
-fn c02_split_owned_n3_ratios() {
-    let ratios: [f32; 8] = [0.0, 1.0e-9, 1.0 / 3.0, 0.34, 0.5, 2.0 / 3.0, 0.67, 1.0];
-    let want: [usize; 8] = [0, 1, 1, 2, 2, 2, 3, 3];   // ceil(3*r), product rounded to single precision: 3*(1/3 as f32) rounds to 1.0 -> 1 ; 3*(2/3 as f32) rounds to 2.0 -> 2
-    let mut seen = [false; 4];
-    for k in 0..8 {
-        let n1 = c02_ceil_count(3, ratios[k]);
-        assert!(n1 == want[k]);
-        let (d1, d2) = c02_ds1(3, 2, true, true).split_with_ratio(ratios[k]);
-        c02_post_split1(&d1, &d2, 3, 2, n1, true, true);
-        seen[n1] = true;
-    }
-    kani::cover!(seen[0] && seen[1] && seen[2] && seen[3]);
-}
-
-// @unit class=bounded tier=thorough mem=heavy bound="n=3,p=1,single target,no weights,no names,ratio symbolic f32 in [0,1]" timeout=1200 fns=linfa::dataset::Dataset::split_with_ratio
+// unweighted, unnamed: nothing may appear from nowhere
+// @unit class=bounded tier=thorough mem=heavy bound="n=3,p=1,single target,no weights,no names,ratio symbolic f32 in [0,1]" timeout=1800 fns=linfa::dataset::Dataset::split_with_ratio
 #[kani::proof]
 #[kani::unwind(5)]
 #[kani::stub(alloc::fmt::format, fmt_stub)]
@@ -160,37 +139,56 @@ fn c02_split_owned_plain_n3() {
     kani::cover!(n1 == 3);
 }
 
-// @unit class=bounded tier=thorough mem=heavy bound="n=2,p=2,2 target columns,weights+names,ratio symbolic f32 in [0,1]" timeout=1200 fns=linfa::dataset::Dataset::split_with_ratio
+// @unit class=bounded tier=thorough mem=heavy bound="n=2,p=2,2 target columns,weights+names,ratio symbolic f32 in [0,1]" timeout=1800 fns=linfa::dataset::Dataset::split_with_ratio
 #[kani::proof]
-#[kani::unwind(5)]
+#[kani::unwind(4)]
 #[kani::stub(alloc::fmt::format, fmt_stub)]
 fn c02_split_owned_mt_n2() {
     let ratio = c02_any_ratio();
     let n1 = c02_ceil_count(2, ratio);
-    let (d1, d2) = c02_ds2(2, 2, 2).split_with_ratio(ratio);
-    c02_post_split2(&d1, &d2, 2, 2, 2, n1);
+    let (d1, d2) = c02_ds2(2, 2, 2, true).split_with_ratio(ratio);
+    c02_post_split2(&d1, &d2, 2, 2, 2, n1, true);
     kani::cover!(n1 == 0);
     kani::cover!(n1 == 1);
     kani::cover!(n1 == 2);
 }
 
 // ------------------------------------------------------------------ view form
+// Cost note (measured): the view form copies the weights with `self.weights.slice(s![..n]).to_vec()`; that one
+// expression costs CBMC 10-12 GB at n=3 (with or without a symbolic ratio) and > 14 GB together with names, while
+// records/targets/names alone cost 25-50 s.  Hence: records + targets + names at n=3, weights at n=2 in a unit of their own.
 
-// @unit class=bounded tier=quick mem=light bound="n=3,p=2,single target,weights+names,ratio symbolic f32 in [0,1]" timeout=900 fns=linfa::dataset::DatasetBase::split_with_ratio,linfa::dataset::DatasetBase::view
+// @unit class=bounded tier=quick mem=light bound="n=3,p=2,single target,names,unweighted,ratio symbolic f32 in [0,1]" timeout=900 fns=linfa::dataset::DatasetBase::split_with_ratio,linfa::dataset::DatasetBase::view
 #[kani::proof]
 #[kani::unwind(5)]
 #[kani::stub(alloc::fmt::format, fmt_stub)]
 fn c02_split_view_n3() {
     let ratio = c02_any_ratio();
     let n1 = c02_ceil_count(3, ratio);
-    let ds = c02_ds1(3, 2, true, true);
+    let ds = c02_ds1(3, 2, false, true);
     let v = ds.view();
     let (d1, d2) = v.split_with_ratio(ratio);
-    c02_post_split1(&d1, &d2, 3, 2, n1, true, true);
+    c02_post_split1(&d1, &d2, 3, 2, n1, false, true);
     kani::cover!(n1 == 0);
     kani::cover!(n1 == 1);
     kani::cover!(n1 == 2);
     kani::cover!(n1 == 3 && ratio < 1.0);
+}
+
+// @unit class=bounded tier=thorough mem=heavy bound="n=2,p=1,single target,weights,no names,ratio symbolic f32 in [0,1]" timeout=1800 fns=linfa::dataset::DatasetBase::split_with_ratio,linfa::dataset::DatasetBase::view
+#[kani::proof]
+#[kani::unwind(4)]
+#[kani::stub(alloc::fmt::format, fmt_stub)]
+fn c02_split_view_weights_n2() {
+    let ratio = c02_any_ratio();
+    let n1 = c02_ceil_count(2, ratio);
+    let ds = c02_ds1(2, 1, true, false);
+    let v = ds.view();
+    let (d1, d2) = v.split_with_ratio(ratio);
+    c02_post_split1(&d1, &d2, 2, 1, n1, true, false);
+    kani::cover!(n1 == 0);
+    kani::cover!(n1 == 1);
+    kani::cover!(n1 == 2);
 }
 
 // @unit class=bounded tier=thorough mem=light bound="n=3,p=1,single target,no weights,no names,ratio symbolic f32 in [0,1]" timeout=900 fns=linfa::dataset::DatasetBase::split_with_ratio,linfa::dataset::DatasetBase::view
@@ -209,59 +207,45 @@ fn c02_split_view_plain_n3() {
     kani::cover!(n1 == 3);
 }
 
-// @unit class=bounded tier=thorough mem=light bound="n=3,p=2,2 target columns,weights+names,ratio symbolic f32 in [0,1]" timeout=900 fns=linfa::dataset::DatasetBase::split_with_ratio,linfa::dataset::DatasetBase::view
+// @unit class=bounded tier=thorough mem=light bound="n=3,p=2,2 target columns,names,unweighted,ratio symbolic f32 in [0,1]" timeout=900 fns=linfa::dataset::DatasetBase::split_with_ratio,linfa::dataset::DatasetBase::view
 #[kani::proof]
 #[kani::unwind(5)]
 #[kani::stub(alloc::fmt::format, fmt_stub)]
 fn c02_split_view_mt_n3() {
     let ratio = c02_any_ratio();
     let n1 = c02_ceil_count(3, ratio);
-    let ds = c02_ds2(3, 2, 2);
+    let ds = c02_ds2(3, 2, 2, false);
     let v = ds.view();
     let (d1, d2) = v.split_with_ratio(ratio);
-    c02_post_split2(&d1, &d2, 3, 2, 2, n1);
+    c02_post_split2(&d1, &d2, 3, 2, 2, n1, false);
     kani::cover!(n1 == 0);
     kani::cover!(n1 == 1);
     kani::cover!(n1 == 3);
 }
-
-
-// ---- experiments
-// @unit class=bounded tier=thorough mem=heavy bound="n=3,p=1,single target,no weights,names,ratio symbolic" timeout=600 fns=linfa::dataset::DatasetBase::split_with_ratio
-#[kani::proof]
-#[kani::unwind(5)]
-#[kani::stub(alloc::fmt::format, fmt_stub)]
-fn c02_split_view_nm_n3() {
-    let ratio = c02_any_ratio();
-    let n1 = c02_ceil_count(3, ratio);
-    let ds = c02_ds1(3, 1, false, true);
-    let v = ds.view();
-    let (d1, d2) = v.split_with_ratio(ratio);
-    c02_post_split1(&d1, &d2, 3, 1, n1, false, true);
-    kani::cover!(n1 == 0);
-    kani::cover!(n1 == 1);
-    kani::cover!(n1 == 3);
-}
-
-
 
 // ------------------------------------------------------------------ owned and view forms agree
+// (both forms are also pinned to the same oracle above; this unit compares them directly on the same input.
+//  Unweighted because of the cost note above; the weights of both forms are pinned separately.)
 
-// @unit class=bounded tier=thorough mem=heavy bound="n=2,p=2,single target,weights+names,ratio symbolic f32 in [0,1]" timeout=1200 fns=linfa::dataset::Dataset::split_with_ratio,linfa::dataset::DatasetBase::split_with_ratio
+// @unit class=bounded tier=thorough mem=heavy bound="n=2,p=2,single target,names,unweighted,ratio symbolic f32 in [0,1]" timeout=1800 fns=linfa::dataset::Dataset::split_with_ratio,linfa::dataset::DatasetBase::split_with_ratio
 #[kani::proof]
-#[kani::unwind(5)]
+#[kani::unwind(4)]
 #[kani::stub(alloc::fmt::format, fmt_stub)]
 fn c02_split_forms_agree_n2() {
     let ratio = c02_any_ratio();
-    let ds = c02_ds1(2, 2, true, true);
+    let ds = c02_ds1(2, 2, false, true);
     let v = ds.view();
     let (v1, v2) = v.split_with_ratio(ratio);
-    let (o1, o2) = c02_ds1(2, 2, true, true).split_with_ratio(ratio);
-    assert!(o1.records == v1.records && o2.records == v2.records);
-    assert!(o1.targets == v1.targets && o2.targets == v2.targets);
-    assert!(o1.weights == v1.weights && o2.weights == v2.weights);
-    assert!(o1.feature_names() == v1.feature_names() && o2.feature_names() == v2.feature_names());
-    assert!(o1.target_names() == v1.target_names() && o2.target_names() == v2.target_names());
+    let (o1, o2) = c02_ds1(2, 2, false, true).split_with_ratio(ratio);
+    assert!(o1.records.dim() == v1.records.dim() && o2.records.dim() == v2.records.dim());
+    assert!(o1.targets.len() == v1.targets.len() && o2.targets.len() == v2.targets.len());
+    for (o, w) in [(&o1, &v1), (&o2, &v2)] {
+        for j in 0..o.nsamples() {
+            assert!(o.records[(j, 0)] == w.records[(j, 0)] && o.records[(j, 1)] == w.records[(j, 1)] && o.targets[j] == w.targets[j]);
+        }
+        assert!(o.weights.len() == w.weights.len());
+        assert!(o.feature_names() == w.feature_names() && o.target_names() == w.target_names());
+    }
     kani::cover!(o1.nsamples() == 1);
     kani::cover!(o1.nsamples() == 0);
     kani::cover!(o2.nsamples() == 0);
